@@ -72,7 +72,7 @@ func VerifC06Supply() {
 	ctx := context.Background()
 	maxTxs := verifParam("maxTxs", 2, 2)
 	maxActions := verifParam("maxActionsSingleTx", 2, 4)
-	maxActionsMulti := verifParam("maxActionsPerTxInMultiTxBlocks", 1, 2)
+	maxActionsMulti := verifParam("maxActionsPerTxInMultiTxBlocks", 1, 1)
 	var addrs [c06Accounts]codec.Address
 	for i := range addrs {
 		addrs[i] = c06Addr(i)
